@@ -155,15 +155,34 @@ fn c01_judge(case: &Case, run: &Run, an: &Analysis, stats: &mut Stats) -> CheckR
   }
   if nontrivial { stats.nontrivial(fingerprint(case)); sample(case, stats); }
   if case.prog.panicky && an.builds.iter().any(|b| b.panic.is_some()) { stats.class("case_with_task_panic_abort"); }
-  fail_on(an, &["c01-output", "c01-state", "panic-internal", "missed-violation", "missed-task-panic"])
+  // Sessions that contain a bottom-up build (with an arbitrary, possibly incomplete report) are history, not subject:
+  // C01 speaks about top-down requires, "whatever was built before on the same Pie instance".
+  let bu_sessions: BTreeSet<usize> = an.builds.iter().filter(|b| matches!(b.kind, BuildKind::BottomUp(_))).map(|b| b.session).collect();
+  if !bu_sessions.is_empty() {
+    stats.class("case_with_earlier_bottom_up_builds_(arbitrary_reports)");
+    if run.sessions.iter().enumerate().any(|(si, s)| si > *bu_sessions.iter().next().unwrap() && !bu_sessions.contains(&si) && !s.builds.is_empty()) { stats.class("top_down_session_after_arbitrary_bottom_up_build"); }
+  }
+  match an.findings.iter().find(|f| ["c01-output", "c01-state", "panic-internal", "missed-violation", "missed-task-panic"].contains(&f.tag) && !bu_sessions.contains(&f.session)) {
+    Some(t) => Err(Failure::new(format!("[{}] {}", t.tag, t.msg))),
+    None => Ok(()),
+  }
 }
 
-fn c01_cfg(t: Tier) -> GenCfg { let mut c = GenCfg::for_tier(t); c.task_panic_share = 2; c }
+fn c01_cfg(t: Tier) -> GenCfg {
+  let mut c = GenCfg::for_tier(t);
+  c.task_panic_share = 2;
+  c.bottom_up = true;
+  c.bottom_up_weight = 2;
+  c.arbitrary_reports = true;
+  c.over_report = true;
+  c.mixed_sessions = true;
+  c
+}
 
 pub const C01: Spec = Spec {
   prop: "C01",
   level: "exploration",
-  rule: "proptest-generated static-role task programs (value-dependent requires/reads/writes, all checker kinds, exact write checkers) x histories of top-down sessions and external changes to source and generated resources; after every returning require the output and the whole resource state are compared with a from-scratch evaluator run on the state the session started in; non-trivial = a session after a change in which some task was reused and some re-executed, or a generated resource changed externally before a session validating its writer; distinct by case hash",
+  rule: "proptest-generated static-role task programs (value-dependent requires/reads/writes, all checker kinds, exact write checkers) x histories of top-down sessions and external changes to source and generated resources, interleaved (for programs without task failures) with bottom-up sessions whose reports are arbitrary, possibly incomplete subsets of the changed resources - those sessions are history only, not judged; after every returning require of a session without bottom-up build the output and the whole resource state are compared with a from-scratch evaluator run on the state the session started in; non-trivial = a session after a change in which some task was reused and some re-executed, or a generated resource changed externally before a session validating its writer; distinct by case hash",
   cfg: c01_cfg,
   transform: identity,
   judge: c01_judge,
@@ -200,9 +219,16 @@ fn c02_judge(case: &Case, run: &Run, an: &Analysis, stats: &mut Stats) -> CheckR
     if after_change && b.facts.max_checks_in_frame >= 2 && (b.facts.early_cutoff || b.facts.dropped_require) { nontrivial = true; }
   }
   if nontrivial { stats.nontrivial(fingerprint(case)); sample(case, stats); }
-  fail_on(an, &["I1-double-exec", "I2-unjustified-exec", "I2-verdict", "I3-order"])?;
+  // Sessions with a bottom-up build (arbitrary reports) are history only; so are the probes that repeat their roots.
+  let bu_sessions: BTreeSet<usize> = an.builds.iter().filter(|b| matches!(b.kind, BuildKind::BottomUp(_))).map(|b| b.session).collect();
+  if !bu_sessions.is_empty() { stats.class("case_with_earlier_bottom_up_builds_(arbitrary_reports)"); }
+  let skipped = |si: usize| bu_sessions.contains(&si) || (run.sessions[si].probe && si > 0 && bu_sessions.contains(&(si - 1)));
+  if let Some(t) = an.findings.iter().find(|f| ["I1-double-exec", "I2-unjustified-exec", "I2-verdict", "I3-order"].contains(&f.tag) && !skipped(f.session)) {
+    return Err(Failure::new(format!("[{}] {}", t.tag, t.msg)));
+  }
   // I4: probes execute nothing.
   for b in &an.builds {
+    if skipped(b.session) { continue; }
     if let BuildKind::Probe(t) = b.kind {
       // Only when every build of the probed session returned: a root whose build aborted never completed, so requiring
       // it again legitimately executes it (and tasks below it) again.
@@ -213,16 +239,16 @@ fn c02_judge(case: &Case, run: &Run, an: &Analysis, stats: &mut Stats) -> CheckR
     }
   }
   // I5: with exact checkers nothing is executed that a from-scratch build would not execute.
-  if exact { fail_on(an, &["I5-unreached-exec"])?; }
+  if exact { if let Some(t) = an.findings.iter().find(|f| f.tag == "I5-unreached-exec" && !skipped(f.session)) { return Err(Failure::new(format!("[{}] {}", t.tag, t.msg))); } }
   Ok(())
 }
 
-fn c02_cfg(t: Tier) -> GenCfg { let mut c = GenCfg::for_tier(t); c.task_panic_share = 2; c }
+fn c02_cfg(t: Tier) -> GenCfg { c01_cfg(t) }
 
 pub const C02: Spec = Spec {
   prop: "C02",
   level: "exploration",
-  rule: "same generated programs x top-down histories (40% use only exact checkers, multi-access with the same checker included); every session is followed by a probe session requiring the same roots; a trace acceptor checks per validation frame: checks are a prefix of the task's dependency list in creation order (from the task-side log), stop at the first inconsistency, every verdict equals the checker relation, an execution only after an inconsistent/erroneous check or without cached output, at most one execution per task per session, probes execute nothing, and with exact-only programs executed tasks are a subset of what the from-scratch evaluator reaches; non-trivial = build after a change with a frame of >=2 checks and (early cut-off or a task dropping a require); distinct by case hash",
+  rule: "same generated programs x histories as C01 (bottom-up sessions with arbitrary reports are history only) (40% use only exact checkers, multi-access with the same checker included); every session is followed by a probe session requiring the same roots; a trace acceptor checks per validation frame: checks are a prefix of the task's dependency list in creation order (from the task-side log), stop at the first inconsistency, every verdict equals the checker relation, an execution only after an inconsistent/erroneous check or without cached output, at most one execution per task per session, probes execute nothing, and with exact-only programs executed tasks are a subset of what the from-scratch evaluator reaches; non-trivial = build after a change with a frame of >=2 checks and (early cut-off or a task dropping a require); distinct by case hash",
   cfg: c02_cfg,
   transform: probe_same_roots,
   judge: c02_judge,
